@@ -76,6 +76,8 @@ type Backend struct {
 	// Override, if set, decides the result of NewSession/Mail/Rcpt/Data
 	// (ok=false: fall back to the address convention).
 	Override func(kind, arg string) (err error, ok bool)
+	// Anomalies lists things no backend should ever see (reported by Obs.Sanity and the other engines).
+	Anomalies []string
 	// Overlaps lists Reset/Logout calls that began while a delivery on the same session was running.
 	Overlaps []string
 	// Probe, if set, is called inside NewSession with the Conn.
@@ -339,6 +341,7 @@ func (s *sess) consume(kind string, r io.Reader, status smtp.StatusCollector) (e
 			break
 		}
 	}
+	b.afterEOF(s, r, rerr)
 	b.mu.Lock()
 	e.Body = body
 	switch {
@@ -382,6 +385,7 @@ func (s *sess) byContent(e *Event, r io.Reader, idx int) error {
 			body = append(body, buf[:n]...)
 		}
 	}
+	b.afterEOF(s, r, rerr)
 	b.mu.Lock()
 	e.Body = body
 	switch {
@@ -409,6 +413,33 @@ func (s *sess) byContent(e *Event, r io.Reader, idx int) error {
 		panic("backend panic for message " + line)
 	}
 	return nil
+}
+
+// FirstAnomaly returns the first recorded anomaly ("" if none).
+func (b *Backend) FirstAnomaly() string {
+	b.mu.Lock()
+	defer b.mu.Unlock()
+	if len(b.Anomalies) > 0 {
+		return b.Anomalies[0]
+	}
+	return ""
+}
+
+// afterEOF: a reader that has reported end-of-file keeps reporting it (io.Reader users such as
+// io.ReadFull read again). Anything else is recorded as an anomaly, which every check reports.
+func (b *Backend) afterEOF(s *sess, r io.Reader, rerr error) {
+	if rerr != io.EOF {
+		return
+	}
+	p := make([]byte, 8)
+	for i := 0; i < 2; i++ {
+		if n, err := r.Read(p); n != 0 || err != io.EOF {
+			b.mu.Lock()
+			b.Anomalies = append(b.Anomalies, fmt.Sprintf("the message reader of session #%d reported EOF and then answered a further Read with (%d, %v)", s.id, n, err))
+			b.mu.Unlock()
+			return
+		}
+	}
 }
 
 func (s *sess) Data(r io.Reader) error { return s.consume("Data", r, nil) }
